@@ -53,6 +53,11 @@ CLAIMED["C10"] = ("§3 C10",
     "Decides that string values and object keys become JSON text only through internal/encoding/json.Marshal (no HTML-escaping json.Marshal, no Go-syntax quoting), that every json.Encoder on the path sets EscapeHTML before Encode, that Value.appendJSON handles every concrete kind and rejects non-concrete values first, that the decoders return an expression only after json.Valid/Decode and the parser succeeded, that output iteration is index-wise, and that the importer unquotes a key only when StringLabelNeedsQuoting is false. It does not decide number spelling or escaping correctness.",
     "encoding/json.Encoder and apd number formatting are trusted")
 
+CLAIMED["C12"] = ("§3 C12",
+    "CFG must-pass (Validate before encode), registry agreement of the encoder/decoder switches over build.Encoding, scoped error-discipline rule, constant-folded open flags of the delayed writer, shared importer gate",
+    "Decides the concreteness gate before every encValue/encFile, that every data encoding sets concrete=true and the round-trip encodings have both encoder and decoder cases with error defaults, that no error of the encode/validate/close chain is dropped in the encoder or in cue export, that the output file is opened exclusively (unless --force) only after the whole buffer exists, and the JSON importer's key-unquoting predicate. It does not decide data equality across the trip nor TOML table/key handling.",
+    "third-party YAML/TOML emitters trusted; file-type inference is CUE-language data (types.cue), not analysed")
+
 # properties not claimed (yet) -> reason
 NOT_APPLICABLE = {
     "C03": "value-level: the content is the cell values of the bound-simplification decision table over numbers; no shape rule separates a correct table from an off-by-one (DESIGN.md §4)",
